@@ -1492,3 +1492,9 @@ package machine
 //@   ensures  names:  err == nil && !old(mem(data.StateNames, "MachineRestored")) ==> seqeq(m.stateNames, data.StateNames) && m.machineTick == u32(data.MachineTick + 1)
 //@   ensures  locks:  !old(mem(data.StateNames, "MachineRestored")) ==> unlocked(m.activeStatesMx) && unlocked(m.queueMx) && unlocked(m.schemaMx)
 //@   loop 1 invariant restored: !isnil(m.clock) && (forall j int :: 0 <= j && j < idx1 ==> m.clock[data.StateNames[j]] == data.Time[j]) && (forall s string :: mem(m.activeStates, s) <==> (exists j int :: 0 <= j && j < idx1 && data.StateNames[j] == s && odd(data.Time[j])))
+
+// Typed arguments: the lookup never yields nil (a missing or mistyped entry
+// falls back to a fresh zero value).
+//@ func ParseArgs[G ArgsApi](args A) (r *G)
+//@   trusted type assertions on interface values are outside the subset; assumed: callers never store a typed nil pointer in A
+//@   ensures nn: r != nil
